@@ -332,9 +332,31 @@ def _run_write_txn(ctx, b, m, t, abort_at=None, hook=None, final=True):
                 # reads inside the transaction see its own writes (spot checks through get/name_exists)
                 nm = b.absname(op.get("n", "@"))
                 if nm is not None:
-                    got = txn.name_exists(b.name_arg(op.get("n", "@"), op.get("nf", "rel")))
+                    narg = b.name_arg(op.get("n", "@"), op.get("nf", "rel"))
+                    got = txn.name_exists(narg)
                     if got != work.name_exists(nm):
                         raise Violation("C10:own-writes", f"[{b.kind}] name_exists({op.get('n')}) is {got} after {Z.describe(op)}")
+                    # point reads through get()/get_node() agree with the model too
+                    nobj = b.name_obj(op.get("n", "@"), op.get("nf", "rel"))
+                    node_model = work.content.get(nm, {})
+                    probe_types = set(node_model.keys())
+                    if "t" in op:
+                        rdt, cov = Z.split_type(op["t"])
+                        probe_types.add((int(rdt), int(cov)))
+                    for (rdt, cov) in probe_types:
+                        rds = txn.get(narg, rdt, cov)
+                        want = node_model.get((rdt, cov))
+                        if want is None:
+                            if rds is not None and len(rds) > 0:
+                                raise Violation("C10:own-writes", f"[{b.kind}] get({op.get('n')}, {rdt}, {cov}) returns data the model does not have after {Z.describe(op)}")
+                        else:
+                            if rds is None or rds.ttl != want[0] or set(b.rid(r) for r in rds) != want[1]:
+                                raise Violation("C10:own-writes", f"[{b.kind}] get({op.get('n')}, {rdt}, {cov}) disagrees with the model after {Z.describe(op)}")
+                    gn = txn.get_node(nobj)
+                    if (gn is None) != (not node_model):
+                        raise Violation("C10:own-writes", f"[{b.kind}] get_node({op.get('n')}) is {'None' if gn is None else 'a node'} but the model has {len(node_model)} rdatasets there after {Z.describe(op)}")
+                    if gn is not None and len(gn.rdatasets) != len(node_model):
+                        raise Violation("C10:own-writes", f"[{b.kind}] get_node({op.get('n')}) holds {len(gn.rdatasets)} rdatasets, model {len(node_model)}")
             if abort_at is not None and abort_at >= len(t["ops"]):
                 res.faults.inc("exception_after_op_k")
                 raise Z.Planned("abort")
